@@ -273,7 +273,11 @@ func (e *explorer) check(out *execOut) {
 			continue
 		}
 		if !sc.Shared && i < len(e.solo) && got != e.solo[i] {
-			e.add(fmt.Sprintf("differential scenario=%s op=%s", sc.sigName(), sc.label(i)), "differential",
+			dc := ""
+			if sc.DiffClass != nil {
+				dc = " differs=" + sc.DiffClass(got, e.solo[i])
+			}
+			e.add(fmt.Sprintf("differential scenario=%s op=%s%s", sc.sigName(), sc.label(i), dc), "differential",
 				fmt.Sprintf("thread %d (%s) observed %s but alone on a fresh instance it observes %s", i, sc.label(i), clip(got), clip(e.solo[i])), out, nil)
 		}
 	}
